@@ -24,6 +24,7 @@ fn factory_for(id: &str) -> Option<(&'static str, Factory)> {
         "C12" => ("C12", |t| Box::new(props::c12::C12::new(t)) as Box<dyn Property>),
         "C04" => ("C04", |t| Box::new(props::c04::C04::new(t)) as Box<dyn Property>),
         "C05" => ("C05", |t| Box::new(props::c05::C05::new(t)) as Box<dyn Property>),
+        "C06" => ("C06", |t| Box::new(props::c06::C06::new(t)) as Box<dyn Property>),
         "C07" => ("C07", |t| Box::new(props::c07::C07::new(t)) as Box<dyn Property>),
         "C08" => ("C08", |t| Box::new(props::c08::C08::new(t)) as Box<dyn Property>),
         "C19" => ("C19", |t| Box::new(props::c19::C19::new(t)) as Box<dyn Property>),
